@@ -227,8 +227,10 @@ def h_preset(k: int, L1: int, L2: int, L3: int, o: int, t: int) -> int:
     m0 = int(live.m0)
     m1 = N - m0 - 1
     for L in lens[:-1]:
-        if L < N - 1:
-            return 1                                    # a non-final block shorter than the history: the generic FirFilter finding (C19.fir), not decided here
+        if L < 7:
+            return 1                                    # a non-final block shorter than the 8-tap kernel's history: the generic FirFilter finding (C19.fir),
+            #                                             not decided here.  The bound is the constant 7, NOT the live N - 1: a longer live kernel pulls more
+            #                                             block sizes into that defect and must be reported (seed C19b)
     if REAL:
         f = common.CdXtractRolandDeemphFilter()
         x = np.full(sum(int(v) for v in lens), 32767, dtype=np.int16)
